@@ -88,6 +88,10 @@ package collection
 //@   replay tw_moveTask
 //@   replay-assume old(w.numSlots) <= 6 && task.delay <= 40 && old(w.interval) <= 2 && old(timer.item.circle) <= 3
 //@   ensures [absent] !found ==> calls(PushBack) == 0 && calls(Put) == 0
+// a move by less than one tick is executed AT ONCE (pinned by TestTimingWheel_MoveTimerSoon), it is not rounded up as
+// a new timer is: callers for which "now" is wrong - the cache, whose callback deletes the key - must clamp themselves
+// ((*Cache).SetWithExpire [re-set-key-kept-for-at-least-one-tick])
+//@   ensures [sub-tick-move-fires-at-once] found && task.delay < w.interval ==> calls("go RunSafe") == 1 && calls(PushBack) == 0 && timer.item == old(timer.item)
 //@   ensures [reschedule] found && task.delay >= w.interval ==>
 //@     | untilFire(timer.pos, timer.item.circle, timer.item.diff, w.tickedPos, w.numSlots) == task.delay / w.interval
 // moving to an earlier tick leaves the old entry behind as a tombstone (it is still linked in its old slot and must
